@@ -1265,6 +1265,29 @@ func runC09(o *out, thorough bool, r *rng, _ []string) map[string]interface{} {
 		}
 	}
 	emit(withBytes([]int{7, 400}, r.bytes(65536+10)))
+	// the literals of the library's own source: strings as text values (alone and as prefixes), numbers as error
+	// codes and as value lengths (n-1, n, n+1)
+	for k, sv := range litStrs {
+		if k >= 200 {
+			break
+		}
+		kind := k % 4
+		emit(withBytes([]int{4, kind}, sv))
+		emit(withBytes([]int{4, kind}, append(append([]byte(nil), sv...), []byte("AAA")...)))
+		emit(withBytes([]int{4, (kind + 2) % 4}, append(append([]byte(nil), sv...), sv...)))
+		o.count("source-literal-values")
+	}
+	for _, v := range litIntsIn(1000, 1<<40, 40) {
+		emit(numsField(8, v))
+		o.count("source-literal-codes")
+	}
+	for _, n := range litIntsIn(8, 70000, 12) {
+		for _, l := range []int{n - 1, n, n + 1} {
+			emit(withBytes([]int{4, n % 4}, r.bytes(l)))
+			emit(withBytes([]int{7, 420}, r.bytes(l)))
+			o.count("source-literal-lengths")
+		}
+	}
 	// IP lengths 0..20 for every address setter
 	for l := 0; l <= 20; l++ {
 		for _, t := range xorTypes {
